@@ -374,6 +374,18 @@ func (e ErrSpec) Build() error {
 		return fmt.Errorf("backend query: %w", context.DeadlineExceeded)
 	case "ok-status-error":
 		return okStatusErr{}
+	case "status-caused-by-ctx-canceled", "status-caused-by-ctx-deadline":
+		// an error type of the application's own that carries a gRPC status and names, as its cause, the context
+		// error of an upstream call it gave up on; the status is the handler's verdict. Code is never 0 here
+		sp := &spb.Status{Code: int32(e.Code), Message: string(e.Msg)}
+		for _, d := range e.Details {
+			sp.Details = append(sp.Details, d.build())
+		}
+		cause := context.Canceled
+		if e.Kind == "status-caused-by-ctx-deadline" {
+			cause = context.DeadlineExceeded
+		}
+		return &causedStatusErr{st: status.FromProto(sp), cause: cause}
 	case "wrapped-status":
 		// a status error with context added the idiomatic way; Code is never 0 here
 		sp := &spb.Status{Code: int32(e.Code), Message: string(e.Msg)}
@@ -384,6 +396,15 @@ func (e ErrSpec) Build() error {
 	}
 	panic("bad ErrSpec kind " + e.Kind)
 }
+
+type causedStatusErr struct {
+	st    *status.Status
+	cause error
+}
+
+func (e *causedStatusErr) Error() string              { return e.st.Message() + ": " + e.cause.Error() }
+func (e *causedStatusErr) GRPCStatus() *status.Status { return e.st }
+func (e *causedStatusErr) Unwrap() error              { return e.cause }
 
 // okStatusErr is a non-nil error whose gRPC status says OK (e.g. a careless wrapper around an
 // upstream status): the handler failed, so the client must not see success.
@@ -422,6 +443,10 @@ func (e ErrSpec) Expected() (code codes.Code, msg string, details []AnySpec) {
 	case "ok-status-error":
 		// any failure will do (see anyFailure); Internal is what httpgrpc documents
 		return codes.Internal, "wrapped upstream status", nil
+	case "status-caused-by-ctx-canceled", "status-caused-by-ctx-deadline":
+		// the error says itself what its status is (status.FromError is the specification, as below)
+		st, _ := status.FromError(e.Build())
+		return st.Code(), st.Message(), e.Details
 	case "wrapped-status":
 		// grpc's status package looks through %w wrapping: the code and details of the wrapped status,
 		// the text of the whole chain (status.FromError is the specification here; the reference
@@ -465,8 +490,8 @@ func genErr(t *rapid.T, label string) ErrSpec {
 	case k < 9:
 		return ErrSpec{Kind: "plain", Msg: genStatusMsg(t, label+"-msg")}
 	case k < 10:
-		kind := rapid.SampledFrom([]string{"ctx-canceled", "ctx-deadline", "wrapped-ctx-canceled", "wrapped-ctx-deadline", "ok-status-error", "wrapped-status", "wrapped-status"}).Draw(t, label+"-ctx")
-		if kind == "wrapped-status" {
+		kind := rapid.SampledFrom([]string{"ctx-canceled", "ctx-deadline", "wrapped-ctx-canceled", "wrapped-ctx-deadline", "ok-status-error", "wrapped-status", "wrapped-status", "status-caused-by-ctx-canceled", "status-caused-by-ctx-deadline"}).Draw(t, label+"-ctx")
+		if kind == "wrapped-status" || strings.HasPrefix(kind, "status-caused-by") {
 			e := ErrSpec{Kind: kind, Code: rapid.Uint32Range(1, 16).Draw(t, label+"-wcode"), Msg: []byte(rapid.StringMatching(`[a-z0-9:+%/ ]{0,12}[a-z]`).Draw(t, label+"-wmsg"))}
 			if rapid.IntRange(0, 2).Draw(t, label+"-whasdet") == 0 {
 				e.Details = append(e.Details, genAny(t, label+"-wdet"))
